@@ -56,6 +56,27 @@ func c09Gen(c *core.Ctx) func(yield func(c09Case) bool) {
 		if stop {
 			return
 		}
+		// optional points only (optional by-name, optional slices), lazy targets: a candidate that
+		// exists but fails to be created is a failure of the start, not an absent candidate
+		for _, sliceOpt := range []bool{false, true} {
+			al := []int{scen.ENone, scen.ENameOpt}
+			if sliceOpt {
+				al = []int{scen.ENone, scen.ESlice}
+			}
+			allGraphs(3, al, false, func(e [][]int) bool {
+				for _, lz := range []int{2, 4, 6} {
+					p := scen.GraphProg{N: 3, Edges: e, Lazy: []bool{false, lz&2 == 2, lz&4 == 4}, Obs: 1, Config: true, Full: true, Faults: true, Kinds: "F", Family: "n3-optional-points", SliceOpt: sliceOpt}
+					if !yield(c09Case{p, 1}) {
+						stop = true
+						return false
+					}
+				}
+				return true
+			})
+			if stop {
+				return
+			}
+		}
 		allGraphs(3, alpha, false, func(e [][]int) bool {
 			masks := []int{0, 1, 4}
 			obs := []int{1}
@@ -103,7 +124,7 @@ func c09Faults(c *core.Ctx) {
 			cc.Choices = ch.Choices()
 			armed := o.RT.Armed
 			key := func(kind string) string {
-				return "C09/" + kind + "/" + core.Hash(p.N, p.Edges, p.Lazy, p.Obs, p.Base, p.ErrShape, cc.Choices)
+				return "C09/" + kind + "/" + core.Hash(p.N, p.Edges, p.Lazy, p.Obs, p.Base, p.ErrShape, p.SliceOpt, cc.Choices)
 			}
 			cls := func(s string) string { return strings.SplitN(s, ":", 2)[0] }
 			sig := fmt.Sprintf("armed=%d", len(armed))
